@@ -453,6 +453,33 @@ theorem sealedSuicide_finishes (c : Cfg) (o : Bool) (fs : FileSet) (hd : ¬ Del 
       simp [sealedSuicideOps, run, applyOps, step, FileSet.set, FileSet.get] at hne ⊢ <;>
       simp [served, startup, removeFractionFiles, classify, classifyInfo, makeInfo, Info.known, Content.has, Del]
 
+/-- once `Active.Suicide` removed `.meta` the fraction serves nothing any more - provided no `.index` of an earlier
+seal is lying around (with one, see `c15_active_delete_reappears`) -/
+theorem activeSuicide_finishes (c : Cfg) (fs : FileSet) (hd : ¬ Del fs) (h : ShapeE fs ∨ ShapeA c fs)
+    (hi : fs.index = .absent) (pre : List Op) (hp : pre <+: activeSuicideOps) (hne : pre ≠ []) :
+    served false (run pre fs) = .none ∧ (startup false (run pre fs)).1 = .none ∧
+      (startup false (run pre fs)).2.docs = .absent ∧ (startup false (run pre fs)).2.sdocs = .absent := by
+  obtain ⟨d1, d2, d3⟩ := not_del hd
+  obtain ⟨docs, docsDel, sdocs, sdocsTmp, sdocsDel, index, indexTmp, indexDel, metaF⟩ := fs
+  simp only at d1 d2 d3 hi
+  subst d1 d2 d3 hi
+  have hpre : pre = activeSuicideOps.take 1 ∨ pre = activeSuicideOps.take 2 := by
+    have hl := hp.length_le
+    have := List.prefix_iff_eq_take.mp hp
+    simp only [activeSuicideOps, List.length_cons, List.length_nil] at hl
+    have hpos : pre.length ≠ 0 := fun h0 => hne (List.eq_nil_of_length_eq_zero h0)
+    have : pre.length = 1 ∨ pre.length = 2 := by omega
+    rcases this with e | e <;> rw [e] at this <;> simp [this]
+  rcases h with ⟨h1, h2, -, h4⟩ | ⟨h1, h2, -, -⟩ <;> simp only at h1 h2 <;> subst h1 h2
+  · simp only at h4
+    subst h4
+    rcases hpre with e | e <;> subst e <;>
+      simp [activeSuicideOps, run, applyOps, step, FileSet.set, served, startup, removeFractionFiles, classify,
+        classifyInfo, makeInfo, Info.known, Content.has]
+  · rcases hpre with e | e <;> subst e <;> cases sdocs <;>
+      simp [activeSuicideOps, run, applyOps, step, FileSet.set, served, startup, removeFractionFiles, classify,
+        classifyInfo, makeInfo, Info.known, Content.has]
+
 theorem shrink_spec (limit : Nat) (sizes : List Nat) :
     (shrink limit sizes).1 ++ (shrink limit sizes).2 = sizes ∧
       ((shrink limit sizes).2.sum ≤ limit) ∧
